@@ -187,9 +187,10 @@ CLAIMED = {
         category="model_checking",
         text=("Only the documented preparation step of truncated ECDSA/P-256 signatures is decided (accept iff r, s in "
               "range; r re-encoded on 32 big-endian bytes; s normalised below 2^255 in little-endian). The reconstruction "
-              "search of verify_trunc_* (Ed25519 and P-256) is not encodable within reach and is NOT claimed."),
+              "search of verify_trunc_* (Ed25519 and P-256) is not encodable within reach and is NOT claimed for all inputs; closed cases "
+              "(signer -> truncation -> completion round trips, flipped kept bits, the s = 0 corner, all-zero transmitted s part) are replayed natively as ground facts."),
         design_ref="DESIGN.md 3 C13, 8",
-        note="Partial claim, stated as such: soundness/completeness of the truncated-signature search are outside.",
+        note="Partial claim, stated as such: soundness/completeness of the truncated-signature search for all inputs are outside; the native closed cases are not solver coverage.",
     ),
     "C16": dict(
         engine="kani",
